@@ -4,8 +4,10 @@
 // see C02_compat.cpp) against the Lean model (IgrisModel/C02).
 //
 // Result line (compared with the model):  ret | the three vector registers as
-// size/capacity:contents | the slot events of the operation
+// size:contents | cap=<verdict> (std::vector's capacity contract, see capverdict) | led=<verdict> (constructed -
+// destroyed objects of the operation = change of the sizes).  Until round 2 the raw capacity and the raw event counts
 //   ev=construct,move-construct,destroy,assign,move-assign,allocate,deallocate
+// were part of the line; they depend on the growth policy, which the property does not fix (round 3, correction 0c).
 // Oracle (independent of the model): a mirror std::vector<int> per register, the
 // global live set of the instrumented element type (every constructed object
 // registers `this`), a tracking allocator (block sizes, no live object inside a
@@ -77,6 +79,12 @@ static inline void tick()
     if (g_fuse > 0)
         g_fuse--;
 }
+
+// allocation-failure injection (round 3): the tracking allocator throws std::bad_alloc at the k-th allocation of
+// the armed window (g_afuse, -1 = disarmed) or for every request above g_alimit elements (-1 = no limit)
+static long g_afuse = -1;
+static long g_alimit = -1;
+static long g_afired = 0;
 
 struct Tracked
 {
@@ -208,7 +216,21 @@ template <class T> struct TA
     template <class U> TA(const TA<U> &) {}
     T *allocate(size_t n)
     {
+        if (g_afuse == 0)
+        {
+            g_afuse = -1;
+            g_afired++;
+            throw std::bad_alloc();
+        }
+        if (g_afuse > 0)
+            g_afuse--;
+        if (g_alimit >= 0 && n > (size_t)g_alimit)
+        {
+            g_afired++;
+            throw std::bad_alloc();
+        }
         g_ev.alloc++;
+        // an exactly sized heap block: ASan sees every access outside it
         T *p = std::allocator<T>().allocate(n);
         g_blocks[(const char *)p] = {n, sizeof(T)};
         return p;
@@ -285,7 +307,9 @@ template <class V, class T, bool PORTABLE> struct Mach : MachBase
     }
     std::string show(int i)
     {
-        std::string s = std::to_string(r[i]->size()) + "/" + std::to_string(r[i]->capacity()) + ":";
+        // round 3: the raw capacity is NOT part of the compared line (std::vector leaves the growth policy to the
+        // implementation); what the contract fixes about it is judged by capverdict() and printed as `cap=ok`
+        std::string s = std::to_string(r[i]->size()) + ":";
         if (r[i]->size() == 0)
             s += "-";
         for (size_t k = 0; k < r[i]->size(); k++)
@@ -332,6 +356,10 @@ template <class V, class T, bool PORTABLE> struct Mach : MachBase
                 if (it == g_blocks.end() || it->second.first != r[i]->capacity())
                     o.fail("capacity() is not the size of the allocated block");
             }
+        // round 3: a vector without a block has no capacity (a failed allocation must not leave one behind)
+        for (int i = 0; i < NREG; i++)
+            if (!r[i]->data() && r[i]->capacity() != 0)
+                o.fail("capacity() " + std::to_string(r[i]->capacity()) + " without a block");
         if (g_blocks.size() != bl)
             o.fail(std::to_string(g_blocks.size()) + " blocks allocated, " + std::to_string(bl) + " owned");
         if (!g_fault.empty())
@@ -368,12 +396,107 @@ template <class V, class T, bool PORTABLE> struct Mach : MachBase
         }
     };
 
+    // what std::vector's contract fixes about capacity(): capacity() >= size() always; an in-place operation never
+    // shrinks it; it reallocates (data pointer / allocator event) only when the required size exceeds the old
+    // capacity (reference stability); operations that do not grow never touch the block; reserve(n) => capacity >= n
+    struct Snap
+    {
+        size_t sz[NREG], cap[NREG];
+        const void *data[NREG];
+    };
+    Snap snap()
+    {
+        Snap s;
+        for (int i = 0; i < NREG; i++)
+        {
+            s.sz[i] = r[i] ? r[i]->size() : 0;
+            s.cap[i] = r[i] ? r[i]->capacity() : 0;
+            s.data[i] = r[i] ? (const void *)r[i]->data() : nullptr;
+        }
+        return s;
+    }
+    static int opclass(const std::string &op)
+    { // 1 = grows in place, 2 = never grows, 0 = replaces the object / the buffer (no promise)
+        static const char *grow[] = {"push", "pushself", "eback", "ebackself", "ins", "insi", "insself", "empl", "emplself", "insr", "insx", "inss", "resize", "reserve"};
+        static const char *same[] = {"pop", "erase", "eraseto", "erase1", "clear", "eq", "ne", "lt", "at", "cat", "idx", "fb", "iter", "riter"};
+        for (auto g : grow) if (op == g) return 1;
+        for (auto g : same) if (op == g) return 2;
+        return 0;
+    }
+    std::string capverdict(const std::string &op, int a, long narg, const Snap &b, const Ev &ev, bool threw)
+    {
+        for (int i = 0; i < NREG; i++)
+            if (r[i]->capacity() < r[i]->size())
+                return "BAD-capacity<size";
+        if (threw)
+            return "ok";
+        int c = opclass(op);
+        V &v = *r[a];
+        if (c == 1)
+        {
+            size_t need = (op == "reserve" || op == "resize") ? (size_t)narg : v.size();
+            if (v.capacity() < b.cap[a])
+                return "BAD-shrunk";
+            if (op == "reserve" && v.capacity() < (size_t)narg)
+                return "BAD-reserve-too-small";
+            if (need <= b.cap[a] && (v.data() != b.data[a] || ev.alloc != 0 || ev.dealloc != 0))
+                return "BAD-reallocated-inside-capacity";
+        }
+        else if (c == 2)
+        {
+            if (v.capacity() != b.cap[a] || v.data() != b.data[a] || ev.alloc != 0 || ev.dealloc != 0)
+                return "BAD-block-changed";
+        }
+        return "ok";
+    }
+    static long sumsz(const Snap &s)
+    {
+        long t = 0;
+        for (int i = 0; i < NREG; i++) t += (long)s.sz[i];
+        return t;
+    }
+
+    // `a <k> <op …>`: the k-th allocation of the call fails (std::bad_alloc); `al <n> <op …>`: every request above n
+    // elements fails.  After a failure the oracle judges the state the exception left (strong guarantee where
+    // std::vector gives it: no effects), then the SAME operation is run again unarmed and its line is the result,
+    // so that the compared line does not depend on the growth policy (whether an allocation was needed at all).
     void step(const std::vector<std::string> &w0, out &o) override
+    {
+        if ((w0[0] == "a" || w0[0] == "al") && w0.size() >= 3)
+        {
+            std::vector<std::string> w(w0.begin() + 2, w0.end());
+            long k = atol(w0[1].c_str());
+            bool failed = step1(w, o, w0[0] == "a" ? k : -1, w0[0] == "al" ? k : -1);
+            std::string first = o.oracle;
+            if (failed)
+            {
+                o.tag("alloc-failed");
+                step1(w, o, -1, -1); // the caller goes on using the object: the same request, now granted
+            }
+            else
+                o.tag("alloc-fuse-not-reached");
+            o.result += std::string(" af=") + (first == "ok" ? "ok" : "BAD");
+            return;
+        }
+        if (w0[0] == "alx" && w0.size() >= 3)
+        { // a request no allocator grants (2^31 .. 2^63 elements): refused, no effects, no retry
+            std::vector<std::string> w(w0.begin() + 2, w0.end());
+            bool failed = step1(w, o, -1, atol(w0[1].c_str()));
+            if (!failed)
+                o.fail("the huge request was not refused");
+            o.tag("alloc-huge-refused");
+            return;
+        }
+        step1(w0, o, -1, -1);
+    }
+
+    // returns true when the (injected) allocation failure left the member function
+    bool step1(const std::vector<std::string> &w0, out &o, long afuse, long alimit)
     {
         // `x <k> <op …>`: the k-th (from 0) throwing-capable element operation inside the member function throws
         std::vector<std::string> w = w0;
         long arm = -1;
-        if (w[0] == "x" && w.size() >= 3 && TRK && !PORTABLE)
+        if (w[0] == "x" && w.size() >= 3 && TRK)
         {
             arm = atol(w[1].c_str());
             w.erase(w.begin(), w.begin() + 2);
@@ -388,8 +511,10 @@ template <class V, class T, bool PORTABLE> struct Mach : MachBase
         int a = I(1);
         V *&v = r[a % NREG];
         std::vector<int> &mv = m[a % NREG];
-#define BEGIN_EV (g_ev = Ev(), g_fuse = arm)
-#define END_EV (ev = g_ev, g_fuse = -1)
+#define BEGIN_EV (g_ev = Ev(), g_fuse = arm, g_afuse = afuse, g_alimit = alimit)
+#define END_EV (ev = g_ev, g_fuse = -1, g_afuse = -1, g_alimit = -1)
+        bool athrew = false;
+        const Snap before = snap();
         try
         {
         if (op == "push")
@@ -555,7 +680,7 @@ template <class V, class T, bool PORTABLE> struct Mach : MachBase
                 for (size_t k = before; k < capb; k++)
                     memset((void *)(v->data() + k), 0x5a, sizeof(T));
             BEGIN_EV;
-            v->resize(I(2));
+            v->resize((size_t)strtoull(w[2].c_str(), nullptr, 10));
             END_EV;
             mv.resize(I(2));
             o.tag((size_t)I(2) > before ? ((size_t)I(2) <= capb ? "resize-grow-in-capacity" : "resize-grow-realloc") : "resize-shrink");
@@ -564,7 +689,7 @@ template <class V, class T, bool PORTABLE> struct Mach : MachBase
         {
             size_t oc = v->capacity();
             BEGIN_EV;
-            v->reserve(I(2));
+            v->reserve((size_t)strtoull(w[2].c_str(), nullptr, 10));
             END_EV;
             mv.reserve(I(2));
             if (v->capacity() < (size_t)I(2))
@@ -827,34 +952,46 @@ template <class V, class T, bool PORTABLE> struct Mach : MachBase
                 o.fail("allocated " + std::to_string(t.alloc) + " deallocated " + std::to_string(t.dealloc));
             if (!g_fault.empty())
                 o.fail("lifetime " + g_fault);
+            // round 3: the totals depend on how often the buffer was reallocated (growth policy); the property fixes
+            // the BALANCE (constructed = destroyed, allocated = freed, nothing alive), which is what is printed
+            bool bal = g_live.empty() && (!TRK || t.ctor + t.mctor == t.dtor) && g_blocks.empty() && t.alloc == t.dealloc;
+            o.result = std::string("end bal=") + (bal ? "ok" : "BAD");
             for (auto q : g_live)
                 delete ((Tracked *)q)->heap;
             g_live.clear();
-            char b[96];
-            if (TRK)
-                snprintf(b, sizeof b, "end tot=%ld,%ld,%ld,%ld ev=", t.ctor + t.mctor, t.dtor, t.alloc, t.dealloc);
-            else
-                snprintf(b, sizeof b, "end tot=-,-,%ld,%ld ev=", t.alloc, t.dealloc);
-            o.result = b + evs(ev);
             for (auto &p : r)
                 p = new V();
             for (auto &x : m)
                 x.clear();
             g_tot = Ev();
-            return;
+            return false;
+        }
+        else if (op == "widths")
+        { // type widths the model embeds (size_t counters: no wrap below 2^64), read out of the compiled code
+            char b[160];
+            snprintf(b, sizeof b, "size=%zu cap=%zu diff=%zu idx=%zu obj=%zu", sizeof(decltype(v->size())), sizeof(decltype(v->capacity())),
+                     sizeof(typename V::difference_type), sizeof(typename V::size_type), sizeof(V) / sizeof(void *));
+            o.result = b;
+            return false;
         }
         else
         {
             o.result = "bad-op";
             o.fail("unknown op");
-            return;
+            return false;
         }
         }
         catch (const Boom &)
         {
             threw = true;
         }
+        catch (const std::bad_alloc &)
+        {
+            athrew = true;
+        }
         g_fuse = -1;
+        g_afuse = -1;
+        g_alimit = -1;
         {
             Ev keep = g_ev; // the harness' own argument object is not an event of the operation
             xarg.reset();
@@ -888,10 +1025,156 @@ template <class V, class T, bool PORTABLE> struct Mach : MachBase
         }
         else if (arm >= 0)
             o.tag("fuse-not-reached");
+        if (athrew)
+        {
+            // the allocation failed.  std::vector: "no effects" for reserve / resize / push_back / emplace_back and
+            // for every insert form when the exception does not come from an element operation; no object for the
+            // constructors; a valid vector (basic guarantee) for copy assignment.
+            ev = g_ev;
+            ret = "badalloc";
+            bool ctor_op = op == "cctor" || op == "tctor" || op == "rctor" || op == "szctor" || op == "ilist" || op == "mctor";
+            if (ctor_op)
+            {
+                if (!v)
+                    v = new V();
+                mv.clear();
+            }
+            else if (op == "cas")
+            {
+                mv.clear();
+                for (size_t k = 0; k < v->size() && k < v->capacity(); k++)
+                    mv.push_back(peek(v->data()[k]));
+            }
+            else
+            {
+                int ai = a % NREG;
+                if (v->capacity() != before.cap[ai] || (const void *)v->data() != before.data[ai])
+                    o.fail("failed allocation changed capacity()/data(): capacity " + std::to_string(v->capacity()) + " was " + std::to_string(before.cap[ai]));
+            }
+        }
         g_tot.ctor += ev.ctor; g_tot.mctor += ev.mctor; g_tot.dtor += ev.dtor; g_tot.asg += ev.asg; g_tot.masg += ev.masg;
         g_tot.alloc += ev.alloc; g_tot.dealloc += ev.dealloc;
-        o.result = ret + " " + show(0) + " " + show(1) + " " + show(2) + " ev=" + evs(ev);
+        std::string cv = capverdict(op, a % NREG, I(2), before, ev, threw || athrew);
+        if (cv != "ok")
+            o.fail("capacity contract: " + cv);
+        // ledger verdict: objects constructed - destroyed by the operation = change of the number of elements
+        bool ledok = !TRK || (ev.ctor + ev.mctor - ev.dtor == sumsz(snap()) - sumsz(before));
+        if (!ledok)
+            o.fail("constructed - destroyed objects of the operation differ from the change of the sizes");
+        o.result = ret + " " + show(0) + " " + show(1) + " " + show(2) + " cap=" + cv + " led=" + (ledok ? "ok" : "BAD");
         check(o);
+        return athrew;
+    }
+};
+
+// ------------------------------------------------------------------ comparison with element types whose == is not
+// the equality of the object representation (round 3): +0.0 / -0.0 and NaN, a record whose == ignores a field, a
+// struct with padding bytes, a bool-like byte.  All are trivially copyable, so a bytewise "fast path" is tempting.
+struct Rec
+{
+    int id, note;
+    bool operator==(const Rec &o) const { return id == o.id; }
+    bool operator!=(const Rec &o) const { return id != o.id; }
+    bool operator<(const Rec &o) const { return id < o.id; }
+};
+struct Pad
+{
+    char tag; // 3 padding bytes follow
+    int v;
+    bool operator==(const Pad &o) const { return tag == o.tag && v == o.v; }
+    bool operator!=(const Pad &o) const { return !(*this == o); }
+    bool operator<(const Pad &o) const { return v < o.v; }
+};
+struct Flag
+{
+    unsigned char b; // any non-zero byte means "set"
+    bool operator==(const Flag &o) const { return (b != 0) == (o.b != 0); }
+    bool operator!=(const Flag &o) const { return (b != 0) != (o.b != 0); }
+    bool operator<(const Flag &o) const { return (b != 0) < (o.b != 0); }
+};
+static_assert(std::is_trivially_copyable<Rec>::value && std::is_trivially_copyable<Pad>::value && std::is_trivially_copyable<Flag>::value, "");
+template <class T> struct Decode;
+template <> struct Decode<double>
+{
+    static double of(int c) { return c == 0 ? 0.0 : c == 1 ? -0.0 : c == 2 ? (double)NAN : (double)(c - 2); }
+};
+template <> struct Decode<float>
+{
+    static float of(int c) { return c == 0 ? 0.0f : c == 1 ? -0.0f : c == 2 ? (float)NAN : (float)(c - 2); }
+};
+template <> struct Decode<Rec>
+{
+    static Rec of(int c) { return Rec{c / 10, c % 10}; }
+};
+template <> struct Decode<Pad>
+{
+    static Pad of(int c)
+    {
+        Pad p;
+        memset((void *)&p, 0x11 * (c % 10), sizeof p); // the padding bytes differ with c % 10
+        p.tag = 'p';
+        p.v = c / 10;
+        return p;
+    }
+};
+template <> struct Decode<Flag>
+{
+    static Flag of(int c) { return Flag{(unsigned char)c}; }
+};
+template <class V, class T, bool PORTABLE> struct EqMach : MachBase
+{
+    // `cmpx a1 a2 … | b1 b2 …` : A == B, A != B, A < B, A == A, copy(A) == A, B == A  against std::vector<T>
+    void step(const std::vector<std::string> &w, out &o) override
+    {
+        if (w[0] != "cmpx")
+        {
+            o.result = "bad-op";
+            o.fail("unknown op");
+            return;
+        }
+        std::vector<T> sa, sb;
+        bool second = false;
+        for (size_t k = 1; k < w.size(); k++)
+        {
+            if (w[k] == "|") { second = true; continue; }
+            (second ? sb : sa).push_back(Decode<T>::of(atoi(w[k].c_str())));
+        }
+        V a, b;
+        for (size_t k = 0; k < sa.size(); k++)
+        { // elementwise memcpy keeps the exact representation (padding bytes included)
+            a.push_back(sa[k]);
+            memcpy((void *)&a[k], (const void *)&sa[k], sizeof(T));
+        }
+        for (size_t k = 0; k < sb.size(); k++)
+        {
+            b.push_back(sb[k]);
+            memcpy((void *)&b[k], (const void *)&sb[k], sizeof(T));
+        }
+        V ca(a);
+        std::vector<T> sca(sa);
+        std::string got, exp;
+        auto bit = [](bool x) { return x ? "1" : "0"; };
+        got += bit(a == b); exp += bit(sa == sb);
+        got += bit(a != b); exp += bit(sa != sb);
+        if constexpr (!PORTABLE)
+            got += bit(a < b);
+        else
+            got += bit(std::lexicographical_compare(a.begin(), a.end(), b.begin(), b.end()));
+        // C++17 meaning of operator< (std::lexicographical_compare with the element's <); the C++20 operator<=> of
+        // std::vector<double> answers "unordered" (so: not less) as soon as a NaN is met - that difference is tagged
+        exp += bit(std::lexicographical_compare(sa.begin(), sa.end(), sb.begin(), sb.end()));
+        if ((sa < sb) != std::lexicographical_compare(sa.begin(), sa.end(), sb.begin(), sb.end()))
+            o.tag("std20-spaceship-differs");
+        got += bit(a == a); exp += bit(sa == sa);
+        got += bit(ca == a); exp += bit(sca == sa);
+        got += bit(b == a); exp += bit(sb == sa);
+        o.result = got;
+        if (got != exp)
+            o.fail("comparison bits ==,!=,<,self==,copy==,reversed== are " + got + ", std::vector<T> gives " + exp);
+        bool bytes_equal = sa.size() == sb.size() && (sa.empty() || memcmp((const void *)sa.data(), (const void *)sb.data(), sa.size() * sizeof(T)) == 0);
+        if (bytes_equal != (sa == sb))
+            o.tag("eq-differs-from-bytes");
+        o.tag(sa == sb ? "cmpx-eq" : "cmpx-ne");
     }
 };
 
@@ -1106,8 +1389,94 @@ static void leftover(out &o)
     (void)o;
 }
 
+// ---- calls BEFORE main(): a harness object of the earliest user priority runs a few operations from its constructor
+// (static-initialisation-order dependencies: the function-local static of flat_map::operator[] const, allocator
+// statics); a later op reports what it saw
+struct PreMain
+{
+    std::string report;
+    PreMain()
+    {
+        igris::vector<int> v;
+        for (int i = 0; i < 5; i++)
+            v.push_back(i * 3);
+        v.insert(v.begin() + 1, 99);
+        v.erase(v.begin() + 2, v.begin() + 4);
+        igris::vector<int> c(v);
+        igris::flat_map<int, int> m{{2, 20}, {1, 10}};
+        const igris::flat_map<int, int> &cm = m;
+        igris::flat_set<int> st;
+        st.insert(4);
+        st.insert(2);
+        std::string s = std::to_string(v.size()) + ":";
+        for (size_t k = 0; k < v.size(); k++)
+            s += (k ? "," : "") + std::to_string(v[k]);
+        s += " eq=" + std::to_string(c == v) + " cget=" + std::to_string(cm[7]) + "," + std::to_string(cm[1]) + " it=";
+        for (auto &kv : m)
+            s += std::to_string(kv.first) + ">" + std::to_string(kv.second) + ";";
+        s += " set=" + std::to_string(st.count(2)) + std::to_string(st.count(3)) + std::to_string(st.size());
+        report = s;
+    }
+};
+static PreMain g_premain __attribute__((init_priority(101)));
+
+// one long history on ONE object (>= 300 KiB of elements): reserve, n push_backs, every element checked, insert in
+// the middle, erase of a long range, resize up and down, copy, ==; linear in n.  The Lean driver does not run the slot
+// model on it (a closed form of the spec): correspondence + oracle only.
+template <class V> static std::string long_history(size_t n, out &o)
+{
+    V v;
+    std::vector<int> m;
+    v.reserve(n);
+    m.reserve(n);
+    const int *d0 = v.data();
+    for (size_t i = 0; i < n; i++)
+    {
+        v.push_back((int)(i * 7 + 1));
+        m.push_back((int)(i * 7 + 1));
+    }
+    if (v.data() != d0)
+        o.fail("reallocation inside the reserved capacity");
+    int x = -5;
+    v.insert(v.begin() + n / 2, x);
+    m.insert(m.begin() + n / 2, x);
+    v.erase(v.begin() + 10, v.begin() + n / 4);
+    m.erase(m.begin() + 10, m.begin() + n / 4);
+    v.resize(v.size() + 1000);
+    m.resize(m.size() + 1000);
+    v.resize(v.size() - 500);
+    m.resize(m.size() - 500);
+    V c(v);
+    bool same = v.size() == m.size();
+    long long sum = 0;
+    for (size_t i = 0; same && i < m.size(); i++)
+    {
+        same = v[i] == m[i];
+        sum += v[i];
+    }
+    if (!same)
+        o.fail("long history differs from std::vector");
+    if (!(c == v) || (c != v))
+        o.fail("copy of the long vector is not equal");
+    return std::to_string(v.size()) + " " + std::to_string(sum) + " " + std::to_string(v.capacity() >= v.size());
+}
+
 static void run_op(const std::vector<std::string> &w, const std::string &line, out &o)
 {
+    if (!w.empty() && w[0] == "premain")
+    {
+        o.result = g_premain.report;
+        if (o.result != "4:0,99,9,12 eq=1 cget=0,10 it=1>10;2>20; set=102")
+            o.fail("operations run before main() answer differently");
+        return;
+    }
+    if (w.size() == 3 && w[0] == "long")
+    {
+        size_t n = (size_t)atol(w[2].c_str());
+        o.result = w[1] == "p" ? long_history<pt::igris::vector<int, TA<int>>>(n, o) : long_history<igris::vector<int, TA<int>>>(n, o);
+        o.tag("long-input");
+        return;
+    }
     if (w.empty())
     {
         o.result = "bad-op";
@@ -1125,6 +1494,18 @@ static void run_op(const std::vector<std::string> &w, const std::string &line, o
         else if (kind == "trk" && var == "v") { g_mach = new Mach<VT, Tracked, false>(); g_mode = 1; }
         else if (kind == "int" && var == "p") { g_mach = new Mach<PI, int, true>(); g_mode = 1; }
         else if (kind == "trk" && var == "p") { g_mach = new Mach<PT, Tracked, true>(); g_mode = 1; }
+        else if (kind == "eqx" && w.size() > 3 && (w[3] == "v" || w[3] == "p"))
+        {
+            bool pp = w[3] == "p";
+            g_mode = 1;
+#define EQM(T) (pp ? (MachBase *)new EqMach<pt::igris::vector<T>, T, true>() : (MachBase *)new EqMach<igris::vector<T>, T, false>())
+            if (var == "dbl") g_mach = EQM(double);
+            else if (var == "flt") g_mach = EQM(float);
+            else if (var == "rec") g_mach = EQM(Rec);
+            else if (var == "pad") g_mach = EQM(Pad);
+            else if (var == "flag") g_mach = EQM(Flag);
+            else { o.result = "bad-op"; o.fail("unknown element type"); g_mode = 0; }
+        }
         else if (kind == "flat" && (var == "h" || var == "c") && cmp_index(w.size() > 3 ? w[3] : "") >= 0)
         {
             // `reset flat h|c [less|greater|lastdigit|sgreater]`
@@ -1161,7 +1542,12 @@ struct Gen
     std::vector<int> sz{0, 0, 0}, cap{0, 0, 0};
     bool portable = false;
     explicit Gen(rng &r) : R(r) {}
-    void emit(const std::string &s) { puts(s.c_str()); }
+    std::string once; // prefix for the next emitted line only (`a <k> ` / `al <n> `: allocation failure)
+    void emit(const std::string &s)
+    {
+        puts((once + s).c_str());
+        once.clear();
+    }
     static std::string S(int x) { return std::to_string(x); }
     int val() { return (int)R.range(0, 9); }
     int pos(int n) // boundary biased position in [0,n]
@@ -1318,7 +1704,13 @@ struct Gen
             if (trk && !p && throwing[k] && R.chance(13))
                 op(k, r, (int)R.below(4));
             else
+            {
+                // allocation failure (all four builds): the k-th allocation of the call, or every request above a limit
+                if (R.chance(10))
+                    once = R.chance(70) ? "a " + S((int)R.below(2)) + " " : "al " + S((int)R.range(0, 6)) + " ";
                 op(k, r);
+                once.clear();
+            }
         }
         emit("end");
     }
@@ -1463,6 +1855,146 @@ struct Gen
                 }
                 if (n)
                     one("x 0 inss 0 4");
+            }
+    }
+
+    // allocation failure, exhaustively for small sizes, all four builds: every growing operation at every position,
+    // the constructors and copy assignment, with the first allocation failing (and a fuse that is not reached, and a
+    // size limit); afterwards the object is used further (the retried operation, push, iteration, ==, destructors)
+    void allocfail(const char *ty, bool p, int maxn, int stride, int &counter)
+    {
+        for (int n = 0; n <= maxn; n++)
+            for (int slack : {0, 1, 3})
+            {
+                auto one = [&](const std::string &line, int reg = 0) {
+                    if ((counter++ % stride) != 0)
+                        return;
+                    begin(ty, p);
+                    build(0, n, slack);
+                    if (reg == 1)
+                        build(1, 2, 1);
+                    emit(line);
+                    emit("push " + S(reg) + " 9");
+                    emit("iter " + S(reg));
+                    emit("fb " + S(reg));
+                    emit("reserve " + S(reg) + " " + S(n + slack + 6));
+                    emit("cctor 2 " + S(reg));
+                    emit("eq 2 " + S(reg));
+                    emit("end");
+                };
+                for (int q = 0; q <= n; q++)
+                {
+                    one("a 0 ins 0 " + S(q) + " 7");
+                    one("a 0 empl 0 " + S(q) + " 7");
+                    one("a 0 insx 0 " + S(q) + " 7 8");
+                    one("a 0 insx 0 " + S(q) + " 7 8 9 6");
+                    for (int i = 0; i < n; i++)
+                        one("a 0 insself 0 " + S(q) + " " + S(i));
+                    for (int f = 0; f <= n; f++)
+                        for (int l = f + 1; l <= n; l++)
+                            if ((f + l + q) % 2 == 0)
+                                one("a 0 insr 0 " + S(q) + " " + S(f) + " " + S(l));
+                }
+                one("a 0 push 0 5");
+                one("a 0 eback 0 5");
+                one("a 1 push 0 5"); // a second allocation does not exist
+                for (int i = 0; i < n; i++)
+                {
+                    one("a 0 pushself 0 " + S(i));
+                    one("a 0 ebackself 0 " + S(i));
+                }
+                for (int m : {n, n + slack, n + slack + 1, n + slack + 3})
+                {
+                    one("a 0 reserve 0 " + S(m));
+                    one("a 0 resize 0 " + S(m));
+                    one("al " + S(n + slack) + " reserve 0 " + S(m)); // the bounded allocator grants what is owned already
+                    one("al " + S(n + slack) + " resize 0 " + S(m));
+                }
+                one("al 0 push 0 5");
+                one("a 0 cas 1 0", 1);
+                one("a 0 cctor 1 0", 1);
+                one("a 0 mas 1 0", 1);
+                one("a 0 mctor 1 0", 1);
+                one("a 0 tctor 1 4 5 6", 1);
+                one("a 0 szctor 1 3", 1);
+                one("al 2 szctor 1 3", 1);
+                for (int k = 0; k < n; k++)
+                    one("a " + S(k) + " rctor 1 0 0 " + S(n), 1);
+                if (n && !p)
+                    one("a 0 inss 0 4");
+            }
+    }
+
+    // ==, !=, < with element types whose == is not the equality of the object representation: every pair of vectors
+    // of length <= 2 over a small alphabet of codes, plus longer random ones
+    void eqx(const char *ty, bool p, const std::vector<int> &alpha, int extra)
+    {
+        std::vector<std::vector<int>> all{{}};
+        for (int x : alpha)
+            all.push_back({x});
+        for (int x : alpha)
+            for (int y : alpha)
+                all.push_back({x, y});
+        emit(std::string("reset eqx ") + ty + (p ? " p" : " v"));
+        auto line = [&](const std::vector<int> &a, const std::vector<int> &b) {
+            std::string s = "cmpx";
+            for (int x : a) s += " " + S(x);
+            s += " |";
+            for (int x : b) s += " " + S(x);
+            emit(s);
+        };
+        for (auto &a : all)
+            for (auto &b : all)
+                line(a, b);
+        for (int i = 0; i < extra; i++)
+        {
+            std::vector<int> a, b;
+            int n = (int)R.range(0, 6);
+            for (int k = 0; k < n; k++)
+                a.push_back(alpha[R.below(alpha.size())]);
+            b = a;
+            // mostly equal-valued twins that differ in representation, sometimes one element or the length changed
+            for (auto &x : b)
+                if (R.chance(40))
+                    x = alpha[R.below(alpha.size())];
+            if (R.chance(20))
+                b.push_back(alpha[R.below(alpha.size())]);
+            line(a, b);
+        }
+    }
+
+    // the exception paths the std_portable.h copy shares with vector.h since the round-3 fixes (copy assignment and
+    // the constructors; the single-element insertions build their temporary first): same fuses, same demands
+    void exceptions_portable(int maxn)
+    {
+        for (int n = 0; n <= maxn; n++)
+            for (int slack : {0, 2})
+            {
+                auto one = [&](const std::string &line, int reg = 0) {
+                    begin("trk", true);
+                    build(0, n, slack);
+                    if (reg == 1)
+                        build(1, 2, 1);
+                    emit(line);
+                    emit("push " + S(reg) + " 9");
+                    emit("iter " + S(reg));
+                    emit("eq 0 1");
+                    emit("end");
+                };
+                one("x 0 push 0 5");
+                one("x 0 ins 0 " + S(n / 2) + " 7");
+                one("x 0 empl 0 " + S(n) + " 7");
+                if (n)
+                    one("x 0 insself 0 0 " + S(n - 1));
+                for (int k = 0; k < n; k++)
+                {
+                    one("x " + S(k) + " cas 1 0", 1);
+                    one("x " + S(k) + " cctor 1 0", 1);
+                    one("x " + S(k) + " rctor 1 0 0 " + S(n), 1);
+                }
+                for (int k = 0; k < 3; k++)
+                    one("x " + S(k) + " tctor 1 4 5 6", 1);
+                one("x 0 szctor 1 3", 1);
             }
     }
 
@@ -1649,6 +2181,15 @@ static void gen(rng &r, const std::string &tier)
             g.emit("@F:C02-reverse-iterators riter 0");
             g.emit("end");
         }
+    // std_portable.h: resize / insert(pos, first, last) have no handler (the header contains no try / catch at all)
+    g.begin("trk", true);
+    g.emit("push 0 1");
+    g.emit("@F:C02-portable-exception-paths x 1 resize 0 3");
+    g.emit("@F:C02-portable-exception-paths end"); // the object left behind m_size is never destroyed
+    g.begin("trk", true);
+    g.emit("tctor 0 1 2 3");
+    g.emit("@F:C02-portable-exception-paths x 1 insx 0 1 7 8 9");
+    g.emit("@F:C02-portable-exception-paths end");
     int counter = (int)r.below(1000);
     for (const char *ty : {"trk", "int"})
         for (bool p : {false, true})
@@ -1659,6 +2200,43 @@ static void gen(rng &r, const std::string &tier)
                 g.comparisons(ty, p);
         }
     g.exceptions(th ? 5 : 4, 1, counter);
+    g.exceptions_portable(th ? 4 : 3);
+    g.emit("premain");
+    g.emit("long v 80000"); // 320 000 bytes of int
+    g.emit("long p 80000");
+    if (th)
+        g.emit("long v 1000000");
+    // requests no allocator grants: 2^31, 2^32, 2^61 (n * sizeof(T) = 2^63), 2^62, 2^63 elements
+    for (const char *ty : {"trk", "int"})
+        for (bool p : {false, true})
+            for (const char *big : {"2147483648", "4294967296", "2305843009213693952", "4611686018427387904", "9223372036854775808"})
+            {
+                g.begin(ty, p);
+                g.build(0, 2, 1);
+                g.emit(std::string("alx 4096 reserve 0 ") + big);
+                g.emit(std::string("alx 4096 resize 0 ") + big);
+                g.emit("push 0 5");
+                g.emit("iter 0");
+                g.emit("end");
+            }
+    // round 3: type widths, allocation failure, comparison under a non-bytewise element equality
+    for (const char *ty : {"trk", "int"})
+        for (bool p : {false, true})
+        {
+            g.begin(ty, p);
+            g.emit("widths 0");
+            g.emit("end");
+            bool full = th || (std::string(ty) == "trk" && !p);
+            g.allocfail(ty, p, th ? 4 : 3, full ? 1 : 3, counter);
+        }
+    for (bool p : {false, true})
+    {
+        g.eqx("dbl", p, {0, 1, 2, 3}, th ? 400 : 40);
+        g.eqx("flt", p, {0, 1, 2, 4}, th ? 400 : 40);
+        g.eqx("rec", p, {10, 11, 20}, th ? 400 : 40);
+        g.eqx("pad", p, {10, 13, 27}, th ? 400 : 40);
+        g.eqx("flag", p, {0, 1, 2}, th ? 400 : 40);
+    }
     int hist = th ? 4000 : 260;
     for (int i = 0; i < hist; i++)
     {
